@@ -55,7 +55,7 @@ func DialTLSWithDialer(d *net.Dialer, network, addr string, cfg *tls.Config) (ne
 
 // AllocLimit is the largest single []byte allocation the simulated machine grants.
 // Redis strings are at most 512 MiB; anything above comes from a corrupted length field.
-const AllocLimit = 600 << 20
+var AllocLimit = 600 << 20
 
 // AllocFailure is the panic value raised when the simulated machine refuses an allocation
 // (the real process would be killed or would thrash); it aborts the simulated process.
